@@ -170,6 +170,13 @@ type Sim struct {
 	YieldJobs bool
 	// FIFO disables drawing of the schedule: always lowest key.
 	FIFO bool
+	// Laggard, if set, names the slow tasks of this run (a stalled process, the workers a caller no longer
+	// waits for, ...): while any other task is enabled a laggard is held back, except at one step in LagRate
+	// (tape-drawn). Every schedule it produces is one the uniform choice can produce too - only far more
+	// rarely: a task that is overtaken by fifty steps of others in a row. LagRate (default 32): a laggard
+	// competes with the others at one step in LagRate.
+	Laggard func(op Op) bool
+	LagRate int
 	// Unhashed: events are recorded but do not enter the trace hash (used for
 	// executions whose schedule the simulator deliberately leaves to the Go runtime).
 	Unhashed bool
@@ -205,6 +212,7 @@ func New(t *tape.Tape) *Sim {
 	return &Sim{
 		Tape:      t,
 		MaxSteps:  4000,
+		LagRate:   32,
 		Tick:      100 * time.Microsecond,
 		occ:       map[string]int{},
 		procs:     map[string]*Proc{},
@@ -548,6 +556,18 @@ func (s *Sim) Run() {
 		}
 		sort.Slice(enabled, func(i, j int) bool { return enabled[i].key < enabled[j].key })
 		s.mu.Unlock()
+		if s.Laggard != nil && !s.FIFO && len(enabled) > 1 {
+			var fast []*parked
+			for _, p := range enabled {
+				if !s.Laggard(p.op) {
+					fast = append(fast, p)
+				}
+			}
+			if len(fast) > 0 && len(fast) < len(enabled) && s.Tape.Draw("lag?", max(s.LagRate, 2)) != 0 {
+				enabled = fast
+				s.Faults["lag"]++
+			}
+		}
 		idx := 0
 		if len(enabled) > 1 {
 			s.Choices++
